@@ -50,6 +50,49 @@ func memoryProviso(msg string) bool {
 	return false
 }
 
+var reDigits5 = regexp.MustCompile(`[0-9]{5,}`)
+
+// provisoPlausible reports whether a program could legitimately ask for a huge allocation: it mentions a number
+// of ≥ 5 digits, a pool value tagged big, an infinity, or at least two growth operators (* ** <<). An
+// allocation-size panic in a program with none of these is a computing error (e.g. a negative capacity).
+func provisoPlausible(p *Pool, src string) bool {
+	text := src
+	for _, v := range p.Vals {
+		if mentionsName(src, v.Name) {
+			if v.Has("big") || v.Has("inf") {
+				return true
+			}
+			text += " " + v.Src
+		}
+	}
+	if reDigits5.MatchString(text) || strings.Contains(text, "inf") || strings.Contains(text, "e308") {
+		return true
+	}
+	return strings.Count(text, "*")+strings.Count(text, "<<")+strings.Count(text, "times")+strings.Count(text, "join") >= 2
+}
+
+// mentionsName reports whether src uses the identifier name (not merely as a part of a longer one).
+func mentionsName(src, name string) bool {
+	for i := 0; ; {
+		k := strings.Index(src[i:], name)
+		if k < 0 {
+			return false
+		}
+		k += i
+		end := k + len(name)
+		before := k == 0 || !isIdentByte(src[k-1])
+		after := end >= len(src) || !isIdentByte(src[end])
+		if before && after {
+			return true
+		}
+		i = k + 1
+	}
+}
+
+func isIdentByte(c byte) bool {
+	return c == '_' || c >= '0' && c <= '9' || c >= 'a' && c <= 'z' || c >= 'A' && c <= 'Z'
+}
+
 // c01judge classifies one observation. key=="" means held or inconclusive (reason set).
 func c01judge(o *interp.Obs, topLevel bool) (key, detail, reason string) {
 	switch {
@@ -204,7 +247,7 @@ func (p *Pool) selfContained(src string) string {
 	var b strings.Builder
 	b.WriteString(strings.TrimSpace(poolPrelude) + "\n")
 	for _, v := range p.Vals {
-		if strings.Contains(src, v.Name) {
+		if mentionsName(src, v.Name) {
 			b.WriteString(v.Name + " := " + v.Src + "\n")
 		}
 	}
@@ -534,6 +577,12 @@ func runC01(w *fw.W) {
 		b.n++
 		b.counters[counter]++
 		key, detail, reason := c01judge(o, top)
+		if reason == "memory-proviso" && !provisoPlausible(pool, src) {
+			// an allocation-size panic although nothing in the program is large: not the memory proviso
+			key = "C01|panic|" + interp.PanicSite(o.PanicStk, 2) + "|" + panicClass(o.Panic) + "|small-operands"
+			detail = "host panic: " + o.Panic + " (no large operand in the program)\n" + firstRepoFrames(o.PanicStk, 6)
+			reason = ""
+		}
 		if key != "" {
 			b.vs.add(key, "source:\n"+truncateMid(src, 600)+"\n"+detail, map[string]any{"source": src, "self_contained": pool.selfContained(src)})
 		} else if reason != "" {
@@ -571,6 +620,31 @@ func runC01(w *fw.W) {
 		}
 		b.counters["catalogue_entries"] = 1
 		finish(b)
+	}
+	// (1b) derived objects × consumers: objects/maps built by conversion props from str-like keys of every kind
+	// (plain, symbol, descendants of a str, the Str prototype, private-looking, empty) handed to everything that
+	// reads keys: ** expansion into user functions, literals, accessors, printing, comparison, JSON
+	{
+		keys := []string{`"a"`, `'width`, `'width.bear`, `Str`, `PStr.new("s")`, `"".bear`, `"with space"`, `"_p"`, `'_q.bear`, `"1"`, `""`, `"日本"`, `Str.bear`, `PStr`, `'a.bear({zz: 1})`, `1`, `nil`, `[1]`}
+		producers := []string{"[[kk, 3]].O", "[[kk, 3], [kk, 4], ['b, 5]].O", "[[kk, 3]].M", "{^kk: 3}", "%{kk: 3}", "[[kk, 3]].O.bear({c: 1})", "[[kk, [[kk, 1]].O]].O", "%{kk: 3}.A.O"}
+		consumers := []string{"{|width: 1, a: 2| [width, a, \\_]}(**e)", "{|x| \\_}(1, **e)", "{|x| \\_.keys}(1, **e, **e)", "{**e}", "{z: 1, **e}", "%{**e}", "%{1: 2, **e}",
+			"e.keys", "e.values", "e.items", "e.S", "e.repr", "e == e", "e.bear({q: 1}).keys(private?: true)", "e@{|k, v| k}", "e.A", "e.M", "e.O", "JSON.enc(e)", "e[kk]",
+			"[e].S", "e.which(kk)", "{m: m{|k: 0| k}}.m(**e)", "1.p(**e)", "e.keys(private?: true)", "{|a| a}.call(1, **e)", "[1]@{|x, k: 1| k}(**e)", "e.has?(kk)", "[e, e].uniq"}
+		for ki, k := range keys {
+			if !w.Take() {
+				continue
+			}
+			w.Begin("derived objects with key "+k, map[string]any{"key": k})
+			b := newBatch()
+			for pi, pr := range producers {
+				for ci, c := range consumers {
+					src := "kk := " + k + "\ne := " + pr + "\n" + c
+					w.Note(src)
+					observe(b, src, run(src, interp.Options{}), "derived_object_programs", fmt.Sprintf("derived|k%d|p%d|c%d", ki, pi, ci), true)
+				}
+			}
+			finish(b)
+		}
 	}
 	// index: every pool value indexed by every pool value
 	for _, x := range pool.Vals {
